@@ -20,6 +20,7 @@ class Contract:
         self.ghost = kw.pop('ghost', {})            # ghost parameter name -> type string
         self.assumed = kw.pop('assumed', False)     # trusted: used at call sites, body not verified
         self.assumed_reason = kw.pop('reason', '')
+        self.lemma_instances = kw.pop('lemma_instances', [])   # [(lemma name, {lemma var: spec expr over params})]
         self.lemmas = kw.pop('lemmas', [])          # names of lemmas whose statements are assumed in this function
         self.using = kw.pop('using', {})            # obligation-name substring -> list of instantiation hints
         self.inline_depth = kw.pop('inline_depth', 3)
@@ -47,6 +48,9 @@ class Lemma:
         self.triggers = kw.get('triggers', None)
         self.props = kw.get('props', [])
         self.induct = kw.get('induct')
+        self.cases = kw.get('cases')      # var -> iterable of ints: the lemma is proved once per combination
+        self.rounds = kw.get('rounds', 2)
+        self.ubounds = kw.get('ubounds', {})   # by='bv': var -> inclusive upper bound (int or function of the case values)
         self.ranges = kw.get('ranges', {})   # name -> (lo, hi) inclusive, for by='enum' and as implicit hypotheses
 
 
